@@ -413,7 +413,7 @@ package scanner
 //@   ensures je != nil && old(len(je.includeTrace)) == 0 ==> len(je.includeTrace) == len(stack)
 //@        && (forall k :: 0 <= k && k < len(stack) ==> je.includeTrace[k].path == stack[len(stack)-1-k].scanner.file.name)
 //@   ensures je != nil && old(len(je.includeTrace)) != 0 ==> len(je.includeTrace) == old(len(je.includeTrace))
-//@   loop 1 invariant 0 - 1 <= i && i < sl && sl == len(stack) && je != nil
+//@   loop 1 invariant 0 - 1 <= i && i < sl && sl == len(stack) && je != nil && old(len(je.includeTrace)) == 0
 //@   loop 1 invariant len(je.includeTrace) == sl - 1 - i
 //@   loop 1 invariant forall k :: 0 <= k && k < sl - 1 - i ==> je.includeTrace[k].path == stack[sl-1-k].scanner.file.name
 //@   loop 1 decreases i + 1
@@ -426,7 +426,7 @@ package scanner
 //@   ensures je != nil && old(len(je.includeTrace)) == 0 ==> len(je.includeTrace) == len(stack)
 //@        && (forall k :: 0 <= k && k < len(stack) ==> je.includeTrace[k].path == stack[len(stack)-1-k].file.name)
 //@   ensures je != nil && old(len(je.includeTrace)) != 0 ==> len(je.includeTrace) == old(len(je.includeTrace))
-//@   loop 1 invariant 0 - 1 <= i && i < sl && sl == len(stack) && je != nil
+//@   loop 1 invariant 0 - 1 <= i && i < sl && sl == len(stack) && je != nil && old(len(je.includeTrace)) == 0
 //@   loop 1 invariant len(je.includeTrace) == sl - 1 - i
 //@   loop 1 invariant forall k :: 0 <= k && k < sl - 1 - i ==> je.includeTrace[k].path == stack[sl-1-k].file.name
 //@   loop 1 decreases i + 1
